@@ -8,7 +8,7 @@ from . import gen
 
 UNI = ["a", "b", "ä", "😀", "日本", 'q"t', "a b", "c"]
 KINDS = ["k1", "k2", "k3"]
-FLAVOURS = ["plain_str", "str_ids", "obj_cb", "obj_derived", "dw", "typed_str", "typed_str_ids", "typed_obj", "typed_derived"]
+FLAVOURS = ["plain_str", "str_ids", "obj_cb", "obj_derived", "dw", "typed_str", "typed_str_ids", "typed_obj", "typed_derived", "fs"]
 
 KEY_MAPS = {"default": True, "off": False,
             "custom": {"data_id": "i", "str": "s", "kind": "k", "type": "t", "name": "n", "age": "a"}}
@@ -174,6 +174,27 @@ def build_source(flavour, f, rng):
         save_kw["mapper"] = DictWrapper.serialize_mapper
         load_kw["mapper"] = DictWrapper.deserialize_mapper
         load_cls = Tree
+    elif flavour == "fs":
+        from nutree.fs import FileSystemEntry, FileSystemTree
+
+        t = FileSystemTree("src")
+        # the same file name occurs in several folders with different sizes; a clone is the same entry object added twice
+        pool = []
+        for i in range(max(1, n // 2 + 1)):
+            nm = rng.choice(["__init__.py", "a.txt", "ä.dat", f"f{i}"])
+            if rng.random() < 0.3:
+                pool.append(FileSystemEntry(nm + "_dir", is_dir=True))
+            else:
+                pool.append(FileSystemEntry(nm, size=rng.randint(0, 5000), mdate=1_600_000_000 + rng.random() * 1e6))
+        labs = gen.clone_labeling(rng, f, list(range(len(pool))))
+        if labs is None:
+            pool = [FileSystemEntry(f"f{i}", size=i, mdate=1.5e9 + i) for i in range(n)]
+            labs = list(range(n))
+        gen.build(t, f, lambda i: pool[labs[i]])
+        load_cls = FileSystemTree
+        if rng.random() < 0.5:
+            save_kw["mapper"] = FileSystemTree.serialize_mapper
+            load_kw["mapper"] = FileSystemTree.deserialize_mapper
     else:
         raise KeyError(flavour)
     return t, save_kw, load_cls, load_kw
@@ -186,6 +207,8 @@ def data_key(d):
         return d.key()
     if isinstance(d, DictWrapper):
         return ("DW", tuple(sorted(d._dict.items())))
+    if type(d).__name__ == "FileSystemEntry":
+        return ("FSE", d.name, bool(d.is_dir), d.size, d.mdate)
     return d
 
 
@@ -208,6 +231,16 @@ def shape(t):
         return out
 
     return rec(t)
+
+
+def key_map_for(flavour, name):
+    """The custom key map must not use short keys that clash with keys of the entries themselves
+    (FileSystemTree's mappers already use n/s/m/d)."""
+    import copy
+
+    if flavour == "fs" and name == "custom":
+        return {"n": "N", "m": "M", "data_id": "i"}
+    return copy.deepcopy(KEY_MAPS[name])
 
 
 def option_tuples():
